@@ -86,7 +86,9 @@ where
     F::Sample: Duplex<f64>,
 {
     let chans = F::CHANNELS;
-    let amp = if F::IS_FLOAT { 1.0 } else { 0.12 };
+    // float formats have no full scale: rarely drive them far beyond 1.0 (linearity must not depend on magnitude)
+    let amp_class = src.cfg("amp_class", 0, 3, |r| if r.chance(1, 8) { r.range(1, 3) } else { 0 });
+    let amp = if F::IS_FLOAT { [1.0, 1.0e3, 1.0e6, 1.0e-6][amp_class as usize] } else { 0.12 };
     let steps = src.cfg("steps", 1, 3000, |r| if r.chance(1, 40) { r.range(600, 3000) } else { r.range(1, 300) }) as usize;
     let alpha = [0.5, -0.25, 2.0, 1.0, -1.0, 0.125][src.cfg("alpha", 0, 5, |r| r.range(0, 5)) as usize];
     let beta = [0.5, 0.75, -3.0, 1.0, 0.0, -0.5][src.cfg("beta", 0, 5, |r| r.range(0, 5)) as usize];
